@@ -128,7 +128,7 @@ def validate(spec: ModelSpec, c: tv.Compiled, tally: decide.Tally, vectorized: b
 
     # concrete shadow run: the real function on the very arguments it was returned with ------------
     try:
-        shadow = c.func(*[np.array(a, copy=True) if isinstance(a, np.ndarray) else a for a in c.args])
+        shadow = c.func(*[_copy_arg(a) for a in c.args])
         shadow = np.asarray(_to_numpy(shadow), dtype=float).reshape(-1)
         if shadow.shape[0] != ny:
             res['violations'].append(dict(kind='shape', what=f"vector field returns {shadow.shape[0]} entries for "
@@ -140,15 +140,17 @@ def validate(spec: ModelSpec, c: tv.Compiled, tally: decide.Tally, vectorized: b
                                            f"{type(e).__name__}: {e}"))
         return res
 
-    # (b) symbolic run -------------------------------------------------------------------
+    # (b) symbolic run: once per feasible path (helper defs with Python branches, argmin ... fork) ----------
     y_sym = symx.symarray('y', ny)
     y_names = [f"y_{j}" for j in range(ny)]
     table = dict(syms.table)
     if extra_table:
         table.update(extra_table)
-    binding = tv.Binding(table)
-    symx.Ctx.cur = symx.Ctx()
-    try:
+    state = {}
+
+    def harness():
+        binding = tv.Binding(table)
+        state['binding'] = binding
         if run_symbolic is not None:
             out, sargs = run_symbolic(c, binding, y_sym)
         else:
@@ -156,24 +158,41 @@ def validate(spec: ModelSpec, c: tv.Compiled, tally: decide.Tally, vectorized: b
             out, sargs = tv.run_symbolic(c, binding, y_sym=y_sym, t_sym=t_sym, overrides=ov.get('args'),
                                          hist=ov.get('hist'))
         tv.check_cells(out, 'dy')
+        return out, sargs, binding
+    n_paths = 0
+    try:
+        paths = list(symx.explore(harness, assumptions=list(extra_assumptions), max_paths=64))
     except symx.Unsupported as e:
         res['inconclusive'].append(dict(kind='engine', what=str(e)))
         return res
-    except Exception as e:    # noqa -- the emitted function raised on symbolic inputs
-        # confirm with the real function on its own arguments
-        real = None
-        try:
-            c.func(*[np.array(a, copy=True) if isinstance(a, np.ndarray) else a for a in c.args])
-        except Exception as e2:   # noqa
-            real = f"{type(e2).__name__}: {e2}"
-        if real is not None:
-            res['violations'].append(dict(kind='emitted-function-raises', what=real, symbolic=str(e)))
-        else:
-            res['inconclusive'].append(dict(kind='engine', what=f"symbolic run raised {type(e).__name__}: {e}",
-                                            tb=traceback.format_exc()[-600:]))
-        return res
-    pc = list(symx.Ctx.cur.pc) + list(extra_assumptions)
-    symx.Ctx.cur = None
+    for pi, (pc, r) in enumerate(paths):
+        n_paths += 1
+        lab = label + (f"#path{pi}" if len(paths) > 1 else '')
+        if isinstance(r, symx.Unsupported):
+            res['inconclusive'].append(dict(kind='engine', what=str(r)))
+            continue
+        if isinstance(r, BaseException):
+            # the emitted function raised on symbolic inputs: confirm with the real function on its own arguments
+            real = None
+            try:
+                c.func(*[_copy_arg(a) for a in c.args])
+            except Exception as e2:   # noqa
+                real = f"{type(e2).__name__}: {e2}"
+            if real is not None:
+                res['violations'].append(dict(kind='emitted-function-raises', what=real, symbolic=str(r)))
+            else:
+                res['inconclusive'].append(dict(kind='engine', what=f"symbolic run raised {type(r).__name__}: {r}"))
+            continue
+        out, sargs, binding = r
+        _check_path(spec, c, tally, vectorized, twin and pi == 0, cvc5, delayed_factory, ext_inputs, t_sym, plugin, lab,
+                    res, syms, pos, ny, ref_states, y_sym, y_names, out, sargs, binding, list(pc))
+    res['paths'] = n_paths
+    res['out_terms'] = None
+    return res
+
+
+def _check_path(spec, c, tally, vectorized, twin, cvc5, delayed_factory, ext_inputs, t_sym, plugin, label, res, syms, pos,
+                ny, ref_states, y_sym, y_names, out, sargs, binding, pc):
     out = np.asarray(out, dtype=object).reshape(-1)
     if out.shape[0] != ny:
         res['violations'].append(dict(kind='shape', what=f"vector field has {out.shape[0]} entries for {ny} states"))
@@ -221,7 +240,6 @@ def validate(spec: ModelSpec, c: tv.Compiled, tally: decide.Tally, vectorized: b
         if ctx.abort:
             return res
     R = refsem.Ref(spec, refsem.SymDom(), P, Y, W, EP, delayed=delayed, ext_inputs=ext_inputs, past=past)
-    extra = extra_state or {}
     for sv in ref_states:
         try:
             ref = R.deriv(*sv)
@@ -287,8 +305,15 @@ def validate(spec: ModelSpec, c: tv.Compiled, tally: decide.Tally, vectorized: b
         elif v == 'unknown':
             res['inconclusive'].append(dict(kind='solver-unknown', what='/'.join(sv)))
         res['obligations'].append(ob)
-    res['out_terms'] = None
     return res
+
+
+def _copy_arg(a):
+    if isinstance(a, np.ndarray):
+        return np.array(a, copy=True)
+    if hasattr(a, 'clone') and hasattr(a, 'detach'):
+        return a.clone()
+    return a
 
 
 def _to_numpy(x):
